@@ -117,6 +117,10 @@ def replay_state(ctx, rnd, s, win, wlo, whi, idx, pid='C01'):
             # the smallest integer type that holds the coordinates (products of such values must not wrap around)
             big = max(int(np.abs(xi).max()), int(np.abs(yi).max()))
             it = np.int16 if big < 2 ** 15 else (np.int32 if big < 2 ** 31 else np.int64)
+            if idx % 2 == 1 and int(xi.min()) >= 0 and int(yi.min()) >= 0:
+                # unsigned coordinates (as read from an image header or a catalogue column): a position left of or
+                # below the centre has a negative offset, which the unsigned type cannot hold
+                it = np.uint16 if big < 2 ** 15 else (np.uint32 if big < 2 ** 31 else np.uint64)
             xs, ys = xi.astype(it), yi.astype(it)
     how = RESHAPES[idx % len(RESHAPES)]
     model = np.asarray(win)
